@@ -12,6 +12,7 @@ def q(xs):
 
 
 def run(ctx):
+    ctx.kats(["KAT_Bn"], seed_const=("GF2Agree", "BigNatAgree"))
     out = os.path.join(ctx.scratch, "c12.ndjson")
     quick = ctx.tier == "quick"
     seqs = [1, 2, 4, 5, 6, 9, 11, 12] if quick else list(range(1, 16))
